@@ -12,7 +12,9 @@ use indexmap::IndexSet;
 fn ty_contains_type_param(ty: &tast::Ty) -> bool {
     match ty {
         tast::Ty::TParam { .. } => true,
-        tast::Ty::TArray { elem, .. } | tast::Ty::TRef { elem } => ty_contains_type_param(elem),
+        tast::Ty::TArray { elem, .. } | tast::Ty::TRef { elem } | tast::Ty::TVec { elem } => {
+            ty_contains_type_param(elem)
+        }
         tast::Ty::TTuple { typs } => typs.iter().any(ty_contains_type_param),
         tast::Ty::TApp { ty, args } => {
             ty_contains_type_param(ty) || args.iter().any(ty_contains_type_param)
